@@ -76,12 +76,12 @@ func genDigits(t *rapid.T, n int) *big.Int {
 	left := n
 	first := true
 	for left > 0 {
-		kind := rapid.IntRange(0, 7).Draw(t, "runKind")
+		kind := ir(t, 0, 7, "runKind")
 		run := 1
 		if kind < 4 {
-			run = rapid.IntRange(1, left).Draw(t, "runLen")
+			run = ir(t, 1, left, "runLen")
 		} else {
-			run = rapid.IntRange(1, min(left, 18)).Draw(t, "runLen")
+			run = ir(t, 1, min(left, 18), "runLen")
 		}
 		switch kind {
 		case 0, 1, 2:
@@ -96,7 +96,7 @@ func genDigits(t *rapid.T, n int) *big.Int {
 				c.Add(c, bi(d))
 			}
 		case 3:
-			dg := int64(rapid.IntRange(0, 9).Draw(t, "runDigit"))
+			dg := int64(ir(t, 0, 9, "runDigit"))
 			if first && dg == 0 {
 				dg = 1
 			}
@@ -105,7 +105,7 @@ func genDigits(t *rapid.T, n int) *big.Int {
 				c.Add(c, bi(dg))
 			}
 		default:
-			v := rapid.Uint64().Draw(t, "runRand")
+			v := u64(t, "runRand")
 			p := ref.Pow10(run)
 			r := new(big.Int).SetUint64(v)
 			r.Mod(r, p)
@@ -126,56 +126,56 @@ func genDigits(t *rapid.T, n int) *big.Int {
 func genCoef(t *rapid.T) *big.Int { return new(big.Int).Set(genCoefShared(t)) }
 
 func genCoefShared(t *rapid.T) *big.Int {
-	switch rapid.IntRange(0, 15).Draw(t, "coefKind") {
+	switch ir(t, 0, 15, "coefKind") {
 	case 0:
-		return new(big.Int).Sub(ref.Cmax, bi(int64(rapid.IntRange(0, 3).Draw(t, "cmaxOff"))))
+		return new(big.Int).Sub(ref.Cmax, bi(int64(ir(t, 0, 3, "cmaxOff"))))
 	case 1:
-		return ref.Pow10(rapid.IntRange(0, 34).Draw(t, "p10"))
+		return ref.Pow10(ir(t, 0, 34, "p10"))
 	case 2:
-		return new(big.Int).Sub(ref.Pow10(rapid.IntRange(1, 34).Draw(t, "p10")), ref.One)
+		return new(big.Int).Sub(ref.Pow10(ir(t, 1, 34, "p10")), ref.One)
 	case 3:
-		return new(big.Int).Mul(big5, ref.Pow10(rapid.IntRange(0, 33).Draw(t, "p10")))
+		return new(big.Int).Mul(big5, ref.Pow10(ir(t, 0, 33, "p10")))
 	case 4:
-		c := new(big.Int).Add(ref.Pow10(rapid.IntRange(1, 34).Draw(t, "p10")), bi(int64(rapid.IntRange(-2, 2).Draw(t, "off"))))
+		c := new(big.Int).Add(ref.Pow10(ir(t, 1, 34, "p10")), bi(int64(ir(t, -2, 2, "off"))))
 		return capCoef(c)
 	case 5:
-		sh := []uint{32, 63, 64, 65, 112, 113}[rapid.IntRange(0, 5).Draw(t, "pow2")]
+		sh := []uint{32, 63, 64, 65, 112, 113}[ir(t, 0, 5, "pow2")]
 		c := new(big.Int).Lsh(ref.One, sh)
-		c.Add(c, bi(int64(rapid.IntRange(-2, 2).Draw(t, "off"))))
+		c.Add(c, bi(int64(ir(t, -2, 2, "off"))))
 		return capCoef(c)
 	case 6:
-		return bi(int64(rapid.IntRange(0, 1000).Draw(t, "small")))
+		return bi(int64(ir(t, 0, 1000, "small")))
 	case 7:
 		// uniform 113/114-bit patterns (form boundary)
-		hi := rapid.Uint64().Draw(t, "hi")
-		lo := rapid.Uint64().Draw(t, "lo")
+		hi := u64(t, "hi")
+		lo := u64(t, "lo")
 		c := new(big.Int).SetUint64(hi >> 14)
 		c.Lsh(c, 64)
 		c.Or(c, new(big.Int).SetUint64(lo))
 		return capCoef(c)
 	case 8:
 		// k * 10^z: trailing zeros
-		z := rapid.IntRange(1, 33).Draw(t, "tz")
-		n := rapid.IntRange(1, 35-z).Draw(t, "len")
+		z := ir(t, 1, 33, "tz")
+		n := ir(t, 1, 35-z, "len")
 		return capCoef(new(big.Int).Mul(genDigits(t, n), ref.Pow10(z)))
 	}
-	n := rapid.IntRange(1, 35).Draw(t, "len")
+	n := ir(t, 1, 35, "len")
 	return capCoef(genDigits(t, n))
 }
 
 // genExp draws an exponent in [Emin, Emax].
 func genExp(t *rapid.T) int {
-	switch rapid.IntRange(0, 7).Draw(t, "expKind") {
+	switch ir(t, 0, 7, "expKind") {
 	case 0:
-		return ref.Emin + rapid.IntRange(0, 80).Draw(t, "eoff")
+		return ref.Emin + ir(t, 0, 80, "eoff")
 	case 1:
-		return ref.Emax - rapid.IntRange(0, 80).Draw(t, "eoff")
+		return ref.Emax - ir(t, 0, 80, "eoff")
 	case 2, 3:
-		return rapid.IntRange(-45, 45).Draw(t, "esmall")
+		return ir(t, -45, 45, "esmall")
 	case 4:
-		return rapid.IntRange(-420, 340).Draw(t, "emid")
+		return ir(t, -420, 340, "emid")
 	}
-	return rapid.IntRange(ref.Emin, ref.Emax).Draw(t, "e")
+	return ir(t, ref.Emin, ref.Emax, "e")
 }
 
 func genSign(t *rapid.T) bool { return rapid.Bool().Draw(t, "neg") }
@@ -201,9 +201,9 @@ func genZero(t *rapid.T) D {
 
 // genSpecial draws NaN / Inf encodings, canonical or with arbitrary low bits.
 func genSpecial(t *rapid.T) D {
-	hi := rapid.Uint64().Draw(t, "shi")
-	lo := rapid.Uint64().Draw(t, "slo")
-	k := rapid.IntRange(0, 5).Draw(t, "skind")
+	hi := u64(t, "shi")
+	lo := u64(t, "slo")
+	k := ir(t, 0, 5, "skind")
 	sign := hi & (1 << 63)
 	switch k {
 	case 0:
@@ -223,9 +223,9 @@ func genSpecial(t *rapid.T) D {
 // genAny draws any 128-bit pattern: uniform bits, structured finite, zeros,
 // specials.
 func genAny(t *rapid.T) D {
-	switch rapid.IntRange(0, 9).Draw(t, "anyKind") {
+	switch ir(t, 0, 9, "anyKind") {
 	case 0, 1:
-		return D{rapid.Uint64().Draw(t, "hi"), rapid.Uint64().Draw(t, "lo")}
+		return D{u64(t, "hi"), u64(t, "lo")}
 	case 2:
 		return genSpecial(t)
 	case 3:
@@ -272,31 +272,31 @@ func genCohortMember(t *rapid.T, d D) D {
 	n := d.Num()
 	switch n.Class {
 	case ref.NaN:
-		hi := rapid.Uint64().Draw(t, "nhi")
-		return D{0x7c00_0000_0000_0000 | d.Hi&(1<<63) | hi&(1<<58-1), rapid.Uint64().Draw(t, "nlo")}
+		hi := u64(t, "nhi")
+		return D{0x7c00_0000_0000_0000 | d.Hi&(1<<63) | hi&(1<<58-1), u64(t, "nlo")}
 	case ref.Inf:
-		hi := rapid.Uint64().Draw(t, "ihi")
-		return D{0x7800_0000_0000_0000 | d.Hi&(1<<63) | hi&(1<<58-1), rapid.Uint64().Draw(t, "ilo")}
+		hi := u64(t, "ihi")
+		return D{0x7800_0000_0000_0000 | d.Hi&(1<<63) | hi&(1<<58-1), u64(t, "ilo")}
 	}
 	if n.Coef.Sign() == 0 {
 		return DFin(n.Neg, n.Coef, genExp(t))
 	}
 	co := cohort(n)
-	return co[rapid.IntRange(0, len(co)-1).Draw(t, "member")]
+	return co[ir(t, 0, len(co)-1, "member")]
 }
 
 func genMode(t *rapid.T) d128.RoundingMode {
-	return ref.Modes[rapid.IntRange(0, 5).Draw(t, "mode")]
+	return ref.Modes[ir(t, 0, 5, "mode")]
 }
 
 // genNear draws an integer near one of the given pivots (within ±w) or exactly
 // pivot+{-1,0,1}: the "threshold window" class of DESIGN §4.
 func genNear(t *rapid.T, w int, pivots ...int) int {
-	p := pivots[rapid.IntRange(0, len(pivots)-1).Draw(t, "pivot")]
+	p := pivots[ir(t, 0, len(pivots)-1, "pivot")]
 	if rapid.Bool().Draw(t, "tight") {
-		return p + rapid.IntRange(-1, 1).Draw(t, "d1")
+		return p + ir(t, -1, 1, "d1")
 	}
-	return p + rapid.IntRange(-w, w).Draw(t, "dw")
+	return p + ir(t, -w, w, "dw")
 }
 
 func describe(d D) string {
@@ -325,4 +325,46 @@ func inexactClass(x ref.X) (string, int) {
 		return "near-tie", e
 	}
 	return "inexact", e
+}
+
+// ---- uniform draws ------------------------------------------------------------
+//
+// rapid's integer generators are deliberately biased towards small magnitudes
+// (geometric bit length), which is what one wants for sizes and selectors but
+// not for 64-bit words, exponents or offsets that must cover their range
+// evenly. The helpers below hash two rapid draws into a uniform word. Every
+// random choice still comes from rapid's bit stream, so replay and shrinking
+// keep working (the shrinker can simplify the structure of a case, not the
+// hashed words).
+
+func u64(t *rapid.T, label string) uint64 {
+	a := rapid.Uint64().Draw(t, label)
+	b := rapid.Uint64().Draw(t, label)
+	return splitmix(a*0x9e3779b97f4a7c15 ^ splitmix(b^0x632be59bd9b4e019))
+}
+
+func u32(t *rapid.T, label string) uint32 { return uint32(u64(t, label) >> 32) }
+
+// ir draws an int in [lo, hi]: through rapid directly for small ranges
+// (selectors, shrinkable), uniformly for wide ranges.
+func ir(t *rapid.T, lo, hi int, label string) int {
+	if hi < lo {
+		panic(fmt.Sprintf("ir: empty range [%d, %d] (%s)", lo, hi, label))
+	}
+	if hi-lo <= 16 {
+		return rapid.IntRange(lo, hi).Draw(t, label)
+	}
+	span := uint64(hi-lo) + 1
+	return lo + int(u64(t, label)%span)
+}
+
+func ubytes(t *rapid.T, n int, label string) []byte {
+	out := make([]byte, 0, n+8)
+	for len(out) < n {
+		w := u64(t, label)
+		for i := 0; i < 8; i++ {
+			out = append(out, byte(w>>(8*i)))
+		}
+	}
+	return out[:n]
 }
